@@ -557,7 +557,7 @@ func main() {
 	}
 	vdir := verifDir()
 	header := "From KB Require Import Base.Cases Model.Lockset Model.C19Cases Gen.Accesses.\n" +
-		"Definition c19_check_t := c19_check accesses.\nDefinition c19_oracle_t := c19_oracle accesses."
+		"Definition c19_check_t := c19_check_covered accesses.\nDefinition c19_oracle_t := c19_oracle accesses."
 	w := lib.NewWriter(args, "C19", "c19", header, "c19_case", "c19_check_t", "c19_oracle_t", 400)
 
 	// ---- (1) the table
